@@ -70,6 +70,7 @@ T1 == N("p1", "T", "", <<>>)
 Leaves == { B("int"), B("uint8"), B("byte"), B("string"),
             T1, N("p2", "T", "", <<>>), N("p1", "U", "", <<>>),
             N("p1", "T", ".0", <<>>), N("p1", "T", ".1", <<>>), N("p1", "T", ".0.0", <<>>),
+            N("p1", "T", ".0.0.0", <<>>), N("p1", "T", ".0.0.1", <<>>), N("p1", "T", ".0.1.0", <<>>), N("p1", "T", ".1.0.0", <<>>),
             N("p1", "G", "", <<B("int")>>), N("p1", "G", "", <<B("string")>>), N("p1", "G", "", <<T1>>),
             N("p1", "G", "", <<N("p1", "T", ".0", <<>>)>>), N("p1", "G", "", <<C("recv", B("int"))>>),
             N("p1", "G", "", <<C("both", C("recv", B("int")))>>), N("p1", "G", "", <<C("recv", C("both", B("int")))>>) }
@@ -108,7 +109,9 @@ MutSeq(s) == UNION {{Repl(s, i, x) : x \in Mut(s[i])} : i \in 1..Len(s)}
 Mut(t) ==
   CASE t.k = "basic" -> {B(n) : n \in {"int", "uint8", "byte", "string", "int32"} \ {t.n}}
     [] t.k = "named" -> {[t EXCEPT !.pkg = OtherPkg(t.pkg)], [t EXCEPT !.name = IF t.name = "T" THEN "U" ELSE "T"],
-                         [t EXCEPT !.scope = IF t.scope = "" THEN ".0" ELSE IF t.scope = ".0" THEN ".1" ELSE ""]}
+                         [t EXCEPT !.scope = IF t.scope = "" THEN ".0" ELSE IF t.scope = ".0" THEN ".1" ELSE ""],
+                         [t EXCEPT !.scope = IF t.scope = ".0.0.0" THEN ".0.0.1" ELSE IF t.scope = ".0.0.1" THEN ".0.1.0"
+                                             ELSE IF t.scope = ".0.1.0" THEN ".1.0.0" ELSE IF t.scope = ".1.0.0" THEN ".0.0" ELSE t.scope \o ".0"]}
                         \cup {[t EXCEPT !.targs = s] : s \in MutSeq(t.targs)}
     [] t.k = "ptr" -> {P(x) : x \in Mut(t.e)} \cup {S(t.e)}
     [] t.k = "slice" -> {S(x) : x \in Mut(t.e)} \cup {P(t.e), A(2, t.e)}
